@@ -553,10 +553,7 @@ func c17Scenario(l *c17Line, sc, n int, long bool) []*c17Line {
 		l.comment("hc", zzverif.Choice("hc.kind", 5), 2, false) // every tag variant: scenario 8
 	case 4: // posting: indentation and account text, then a plain amount
 		l.indent([]int{0, 1, 2, 4, 8}[zzverif.Choice("indent", 5)])
-		first := zzverif.Letters // other first characters: scenario 5
-		if long {
-			first = c17SegFirst
-		}
+		first := zzverif.Letters // other first characters: scenario 5 (and the non-letters € 😀 here)
 		if long && zzverif.Choice("segs", 2) == 1 {
 			l.account("acct", 3, 1, first) // three segments of one character
 		} else {
